@@ -504,7 +504,11 @@ func outOfSubset(f *ssa.Function) string {
 			switch in := in.(type) {
 			case *ssa.Call:
 				if b, ok := in.Call.Value.(*ssa.Builtin); ok && b.Name() == "recover" {
-					return "recover"
+					// supported only in the shape "a deferred function literal calls recover()": the literal itself is
+					// executed as part of its parent (defersRecover); verified on its own it has no meaning
+					if f.Parent() == nil {
+						return "recover"
+					}
 				}
 				if sc := in.Call.StaticCallee(); sc != nil && sc.Pkg != nil && sc.Pkg.Pkg.Path() == "reflect" {
 					return "reflect"
@@ -541,6 +545,7 @@ func (fr *Frame) inline(st *State, callee *ssa.Function, args, bindings []string
 		fr2.prefix = fr.prefix + ">" + key
 	}
 	fr2.fv = bindings
+	fr2.parent = fr
 	for i, p := range callee.Params {
 		if i < len(args) {
 			fr2.env[p] = args[i]
@@ -989,8 +994,14 @@ func (fr *Frame) builtin(st *State, v ssa.Value, b *ssa.Builtin, cc *ssa.CallCom
 		}
 		set(r)
 	case "recover":
-		c.Notes = append(c.Notes, fr.key+": recover() outside subset; result havoced")
-		set(c.freshConst("recover", "Iface"))
+		// recover() in a deferred function: non-nil while the deferred functions run because of a panic, nil otherwise
+		if x.panicDepth > 0 {
+			r := c.freshConst("recovered", "Iface")
+			c.assume(not(eq(sx("itag", r), "0")))
+			set(r)
+		} else {
+			set("(mk_iface 0 box0)")
+		}
 	default:
 		c.Notes = append(c.Notes, fr.key+": builtin "+b.Name()+" havoced")
 		if v != nil {
